@@ -1,6 +1,10 @@
 #!/usr/bin/env python3
 """Runs every seeded change against the check of its property (and extra properties given in EXTRA), records the result in
-seeded/<id>/meta.json and prints the table for DESIGN.md section 9.   usage: seeded_matrix.py [ids...]"""
+seeded/<id>/meta.json and prints the table for DESIGN.md section 9.
+usage: seeded_matrix.py [--tree <scratch worktree of /repo>] [ids...]
+Without --tree the change is applied to /repo itself (and reverted); with --tree it is applied to that scratch worktree
+and the checks run with DZNPY_TREE pointing there (several streams can then run side by side; the evidence of those runs
+goes to a scratch directory)."""
 import json
 import os
 import subprocess
@@ -17,7 +21,14 @@ def sh(cmd, **kw):
 
 
 def main():
-    ids = sys.argv[1:] or sorted(os.listdir(os.path.join(VERIF, 'seeded')))
+    argv = sys.argv[1:]
+    tree = '/repo'
+    env = None
+    if argv[:1] == ['--tree']:
+        tree = argv[1]
+        argv = argv[2:]
+        env = dict(os.environ, DZNPY_TREE=tree, PYVC_EVIDENCE_DIR='/tmp/ev-seeded-' + os.path.basename(tree))
+    ids = argv or sorted(os.listdir(os.path.join(VERIF, 'seeded')))
     rows = []
     for sid in ids:
         d = os.path.join(VERIF, 'seeded', sid)
@@ -26,8 +37,8 @@ def main():
             continue
         meta = json.load(open(os.path.join(d, 'meta.json'))) if os.path.exists(os.path.join(d, 'meta.json')) else {}
         props = [meta.get('property', sid[:3])] + EXTRA.get(sid, [])
-        assert not sh('git -C /repo status --porcelain').stdout.strip(), '/repo not clean'
-        r = sh(f'git -C /repo apply {patch}')
+        assert not sh(f'git -C {tree} status --porcelain').stdout.strip(), f'{tree} not clean'
+        r = sh(f'git -C {tree} apply {patch}')
         if r.returncode != 0:
             rows.append((sid, props[0], 'patch does not apply', ''))
             continue
@@ -35,13 +46,13 @@ def main():
         try:
             for p in props:
                 t0 = time.time()
-                pr = sh(f'./check {p}', cwd=VERIF)
+                pr = sh(f'./check {p}', cwd=VERIF, env=env)
                 lines = [l for l in pr.stdout.splitlines() if l.startswith('VIOLATION') or 'failed obligation' in l]
                 res[p] = {'exit': pr.returncode, 'seconds': round(time.time() - t0, 1),
                           'first_failed_obligation': next((l for l in lines if 'failed obligation' in l), '')[:300],
                           'first_violation_line': next((l for l in lines if l.startswith('VIOLATION')), '')[:300]}
         finally:
-            sh('git -C /repo checkout -- .')
+            sh(f'git -C {tree} checkout -- .')
         meta['checks_run'] = res
         meta['caught_by'] = [p for p, v in res.items() if v['exit'] == 1]
         json.dump(meta, open(os.path.join(d, 'meta.json'), 'w'), indent=1)
